@@ -1699,4 +1699,80 @@ theorem p_resolver_touches_only_named (s : State) (op : Op) (fp : Fp) (h : ¬ To
             simp only [get_certs_remove, ho, if_false]
             exact get_certs_add s c' fp hne
 
+
+-- =============================================================== part 6 ==
+-- the chain presented, a ClientHello without SNI, the streams of one connection
+
+/-- the certificate ids among the blocks, in order -/
+def linkId : Link → Option Nat
+  | .cert i => some i
+  | .bad => none
+
+def linkIds (links : List Link) : List Nat := links.filterMap linkId
+
+theorem p_chain_refused_iff (leaf : Nat) (links : List Link) :
+    assembleChain leaf links = none ↔ Link.bad ∈ links := by
+  unfold assembleChain
+  split
+  · next h =>
+    simp only [true_iff]
+    obtain ⟨l, hl, he⟩ := List.any_eq_true.mp h
+    have : l = Link.bad := by simpa using he
+    rw [← this]; exact hl
+  · next h =>
+    simp only [reduceCtorEq, false_iff]
+    intro hb
+    apply h
+    exact List.any_eq_true.mpr ⟨Link.bad, hb, by simp⟩
+
+theorem filterMap_chain (leaf : Nat) (links : List Link) :
+    links.filterMap (keepLink leaf) = (linkIds links).filter (· ≠ leaf) := by
+  unfold linkIds
+  induction links with
+  | nil => rfl
+  | cons l t ih =>
+    cases l with
+    | bad => simpa [List.filterMap_cons, keepLink, linkId] using ih
+    | cert i =>
+      by_cases hi : i = leaf
+      · simp [List.filterMap_cons, keepLink, linkId, hi, ih]
+      · simp [List.filterMap_cons, keepLink, linkId, hi, ih]
+
+theorem p_chain_shape (leaf : Nat) (links : List Link) (c : List Nat)
+    (h : assembleChain leaf links = some c) :
+    c = leaf :: (linkIds links).filter (· ≠ leaf) ∧ c.head? = some leaf ∧ leaf ∉ c.tail ∧
+      (∀ x, x ∈ c ↔ x = leaf ∨ x ∈ linkIds links) := by
+  unfold assembleChain at h
+  split at h
+  · cases h
+  · cases h
+    rw [filterMap_chain]
+    refine ⟨rfl, rfl, ?_, ?_⟩
+    · simp [List.mem_filter]
+    · intro x
+      simp only [List.mem_cons, List.mem_filter, ne_eq, decide_not, Bool.not_eq_eq_eq_not,
+        Bool.not_true, decide_eq_false_iff_not]
+      constructor
+      · rintro (h1 | ⟨h1, _⟩)
+        · exact Or.inl h1
+        · exact Or.inr h1
+      · rintro (h1 | h1)
+        · exact Or.inl h1
+        · by_cases hx : x = leaf
+          · exact Or.inl hx
+          · exact Or.inr ⟨h1, hx⟩
+
+theorem p_no_sni_no_certificate (re : Bytes → Bytes → Bool) (s : State) :
+    resolve re s none = .nothing := rfl
+
+theorem p_strict_sni_streams (re : Bytes → Bytes → Bool) (ops : List Op) (N : Bytes) (hN : GoodHost N)
+    (authorities : List Bytes) :
+    ∀ a ∈ authorities,
+      routeAllowed true (some N) (snapshot re (run init ops) (some N)) a = true →
+      (∃ c, Stored (run init ops) c ∧ resolve re (run init ops) (some N) = .cert c.fp ∧ CertCovers c N ∧
+          ∃ name ∈ c.names, SniCovers (normName name) (hostOf a)) ∨
+      (resolve re (run init ops) (some N) = .default ∧
+          (¬ ∃ c, Stored (run init ops) c ∧ CertCovers c N) ∧ lower (stripPort a) = N) :=
+  fun a _ h => p_strict_sni re ops N hN a h
+
 end Sozu.Tls
